@@ -69,6 +69,8 @@ type world struct {
 	wasmAddr   sdk.AccAddress // hello_world_counter instance
 	wasmCodeID uint64
 	other      gethcommon.Address // a plain funded EOA used as recipient
+	hostile    gethcommon.Address // hand-assembled ERC20 registered as FunToken; answers as the case configures (token_test.go)
+	hostDenom  string
 	storeKeys  []storetypes.StoreKey
 }
 
@@ -205,6 +207,30 @@ func newWorld(t *testing.T) *world {
 	sdb.SetCode(fwdStatic, forwarderCode(0xfa, false))
 	if err := sdb.Commit(); err != nil {
 		t.Fatal(err)
+	}
+	// the hostile ERC20: deployed by a creation call, registered as a FunToken by its "owner" (anyone may), and bank
+	// coins of its denom in the hands of every caller (so that sendToEvm reaches the token contract too)
+	{
+		sdb := deps.EvmKeeper.NewStateDB(deps.Ctx, statedb.NewEmptyTxConfig(gethcommon.Hash{}))
+		evmObj := deps.EvmKeeper.NewEVM(deps.Ctx, evmtest.MOCK_GETH_MESSAGE, deps.EvmKeeper.GetEVMConfig(deps.Ctx), evm.NewNoOpTracer(), sdb)
+		_, addr, _, err := evmObj.Create(vm.AccountRef(deps.Sender.EthAddr), wrapInit(hostileTokenRuntime()), 3_000_000, big.NewInt(0))
+		if err != nil {
+			t.Fatalf("deploy hostile token: %v", err)
+		}
+		if err := sdb.Commit(); err != nil {
+			t.Fatal(err)
+		}
+		w.hostile = addr
+		fund(deps.Sender.NibiruAddr, deps.EvmKeeper.FeeForCreateFunToken(deps.Ctx))
+		h55 := eth.EIP55Addr{Address: w.hostile}
+		r3, err := deps.EvmKeeper.CreateFunToken(sdk.WrapSDKContext(deps.Ctx), &evm.MsgCreateFunToken{FromErc20: &h55, Sender: deps.Sender.NibiruAddr.String()})
+		if err != nil {
+			t.Fatalf("create funtoken (hostile erc20): %v", err)
+		}
+		w.hostDenom = r3.FuntokenMapping.BankDenom
+		for _, c := range []gethcommon.Address{deps.Sender.EthAddr, fwdCall, fwdCallCode, fwdDelegate, fwdStatic} {
+			fund(eth.EthAddrToNibiruAddr(c), sdk.NewCoins(sdk.NewCoin(w.hostDenom, sdkmath.NewInt(1_000_000))))
+		}
 	}
 	// the three precompile accounts exist in the committed state, as on a chain where each has been called
 	// before (a call to an address without account starts with a journaled account creation)
